@@ -38,7 +38,7 @@ theorem inv_apply (kw : List String) (st st' : St) (op : Op) (h : Inv st)
   | removeBases p bs => exact inv_removeBases st st' h p bs hop
   | setRef p name v => exact inv_setRef kw st st' h p name v hop
   | delRef p name => exact inv_delMember st st' h .refs p name hop
-  | setGlobal name => exact inv_setGlobal kw st st' h name hop
+  | setGlobal name => exact inv_setGlobal st st' h name hop
   | delGlobal name => exact inv_delGlobal st st' h name hop
 
 theorem inv_step (kw : List String) (st : St) (op : Op) (h : Inv st) : Inv (st.step kw op).1 := by
